@@ -58,7 +58,7 @@ func TestCheck(t *testing.T) {
 	peer.Register()
 	r := h.Start(t, "C09")
 	defer r.Finish()
-	r.Meta("rule", "every request carries a unique id (caller, sequence number) and every response is a function of that id, so a response handed to the wrong caller is visible. (A) real client <-> real service over one client on tcp, unix, udp, ws, ws-fasthttp (and http, fasthttp, mock for comparison): {2, 8, 64} concurrent callers x proxy Invoke and raw Request, service-side delays drawn per id so that completion order differs from issue order, worker pool absent / present; the number of distinct server-side connections is recorded. (B) real client <-> scripted raw server (tcp, unix, udp, ws): the server withholds the answers of K in {1,2,5,16,64} concurrent calls and releases them in order / reversed / evens-then-odds / PRNG permutation, preceded, interleaved and followed by stray identifiers (never issued, and already answered) and duplicated answers with a different body; afterwards a second round on the same connection. (C) udp identifier wrap-around: more than 2^15 calls on one connection, with calls kept pending across the wrap. (D) reverse calls from a service to {1,3} providers with {2,16} concurrent callers each; reverse calls placed around the provider poll's idle time-out; batches of 2..6 reverse calls queued before the provider listens, of which some callers give up before the results are posted (stray results in front of live ones). Oracle: every caller gets exactly the answer derived from its own id; a caller whose call is still pending at the end of the case is a violation. distinct_nontrivial = distinct (part, transport, parameters) cells")
+	r.Meta("rule", "every request carries a unique id (caller, sequence number) and every response is a function of that id, so a response handed to the wrong caller is visible. (A) real client <-> real service over one client on tcp, unix, udp, ws, ws-fasthttp (and http, fasthttp, mock for comparison): {2, 8, 64} concurrent callers x proxy Invoke and raw Request, service-side delays drawn per id so that completion order differs from issue order, worker pool absent / present; the number of distinct server-side connections is recorded. (B) real client <-> scripted raw server (tcp, unix, udp, ws): the server withholds the answers of K in {1,2,5,16,64} concurrent calls and releases them in order / reversed / evens-then-odds / PRNG permutation, preceded, interleaved and followed by stray identifiers (never issued, and already answered) and duplicated answers with a different body; afterwards a second round on the same connection. (C) udp identifier wrap-around: more than 2^15 calls on one connection, with calls kept pending across the wrap. (D) reverse calls from a service to {1,3} providers with {2,16} concurrent callers each; reverse calls placed around the provider poll's idle time-out; batches of 2..6 reverse calls queued before the provider listens, of which some callers give up before the results are posted (stray results in front of live ones). Oracle: every caller gets exactly the answer derived from its own id; a caller whose call is still pending at the end of the case is a violation. distinct_nontrivial = distinct (part, transport, parameters) cells Added: batches of reverse calls of which some callers give up before the results are posted; provider polls never give up on the client side, so any reverse call that times out is a lost call; re-run under CPU load during development (which exposed the result-registration race). Round 3 additions: peers answering right around the callers' time-outs; first-ever reverse calls to fresh provider ids released by a barrier.")
 	r.Meta("assumptions", []string{"up to 64 concurrent callers per client", "udp: fewer than 2^15 calls are pending at once on one connection"})
 	callers := []int{2, 8, 64}
 	scripted := []int{1, 2, 5, 16, 64}
